@@ -418,7 +418,13 @@ def m_vec_ops(I, st, c, args, cont, depth, site):
         if i >= len(items):
             I.event(st, 'PANIC', 'Vec::remove index out of bounds')
             return cont(st, PANIC)
-        x = items.pop(i)
+        if op == 'swap_remove':
+            # contract: the LAST element takes the place of the removed one (order is not preserved)
+            x = items[i]
+            items[i] = items[-1]
+            items.pop()
+        else:
+            x = items.pop(i)
         I.write_ref(st, r, VecVal(items, v.kind))
         return cont(st, x)
     if op == 'truncate':
